@@ -52,6 +52,9 @@ def dispatch (prop : String) (line : String) : Verdict :=
     | some "qdroprace" => QueueE.runDropRace prop f obsS
     | some "qemitdrop" => QueueE.runEmitDrop prop f obsS
     | some "qdeep" => QueueE.runDeep prop f obsS
+    | some "qfirst" => QueueE.runFirst prop f obsS
+    | some "qnothread" => QueueE.runNoThread prop f obsS
+    | some "qunwind" => QueueE.runUnwind prop f obsS
     | some "sockbig" => SockE.runBig prop f obsS
     | some "sockstrace" => SockE.runStrace prop f obsS
     | some "hdl" => FmtE.runHdl prop f obsS
